@@ -1,25 +1,103 @@
 import TinsModel.Tcp.Spec
+import TinsModel.Tcp.Flow
+import TinsModel.Tcp.Legacy
 import Driver.Util
-/- line-protocol driver for DataTracker: model mode and spec (oracle) mode -/
+/- line-protocol driver for C06: model mode and spec (oracle) mode.
+   Three op families, one per harness:
+     init/seg/adv                         DataTracker            (harness/c06_tracker.cpp)
+     finit/fseg/fsegp/fbare/fadv/fignore  Flow::process_packet   (harness/c06_flow.cpp)
+     linit/lseg/lsegp/lbare               legacy TCPStreamFollower (harness/c06_legacy.cpp) -/
 namespace Driver.C06
 open Tins Tins.DT Driver
 
-def showState (r : String) (t : Tracker) : String :=
-  let chunks := (sortByKey t.buf).map (fun (k, d) => s!"{k}:{toHex d}")
-  s!"{r} seq={t.seq} total={t.total} plen={t.payload.length} ph={fnv t.payload} buf={joinWith "," chunks}"
+structure MState where
+  t : Tracker := Tracker.init 0
+  flow : Flow := Flow.init 0
+  lc : LStream := LStream.init 0
+  ls : LStream := LStream.init 0
 
-def step (t : Tracker) (line : String) : Tracker × String :=
+/-- `<key>:<hex>` for chunks of at most 32 bytes, `<key>:#<len>.<fnv64>` for longer ones (harness/c06_show.h) -/
+def showChunk (c : Nat × Bytes) : String :=
+  if c.2.length ≤ 32 then s!"{c.1}:{toHex c.2}" else s!"{c.1}:#{c.2.length}.{fnv c.2}"
+
+def showChunks (m : Chunks) : String :=
+  joinWith "," ((sortByKey m).map showChunk)
+
+def showState (r : String) (t : Tracker) : String :=
+  s!"{r} seq={t.seq} total={t.total} plen={t.payload.length} ph={fnv t.payload} buf={showChunks t.buf}"
+
+def showDir (t : LStream) : String :=
+  s!"{t.seq}/{t.payload.length}/{fnv t.payload}/{showChunks t.frags}"
+
+def showLegacy (r : Bool) (st : MState) : String :=
+  s!"r={if r then 1 else 0} end=0 c={showDir st.lc} s={showDir st.ls}"
+
+def showFlow (ev : FlowEvents) (f : Flow) : String :=
+  showState s!"{if ev.data then "r=1" else "r=0"} ooo={if ev.outOfOrder then 1 else 0}" f.tracker
+
+def step (st : MState) (line : String) : MState × String :=
   match words line with
   | "init" :: n :: _ => match n.toNat? with
-    | some k => let t' := Tracker.init k; (t', showState "init" t')
-    | none => (t, "bad-op")
+    | some k => let t' := Tracker.init k; ({ st with t := t' }, showState "init" t')
+    | none => (st, "bad-op")
   | "seg" :: n :: h :: _ => match n.toNat?, parseHex h with
-    | some k, some d => let (t', r) := processPayload t k d; (t', showState (if r then "r=1" else "r=0") t')
-    | _, _ => (t, "bad-op")
+    | some k, some d =>
+      let (t', r) := processPayload st.t k d
+      ({ st with t := t' }, showState (if r then "r=1" else "r=0") t')
+    | _, _ => (st, "bad-op")
   | "adv" :: n :: _ => match n.toNat? with
-    | some k => let t' := advanceSequence t k; (t', showState "adv" t')
-    | none => (t, "bad-op")
-  | _ => (t, "bad-op")
+    | some k => let t' := advanceSequence st.t k; ({ st with t := t' }, showState "adv" t')
+    | none => (st, "bad-op")
+  -- Flow
+  | "finit" :: n :: _ => match n.toNat? with
+    | some k => let f := Flow.init k; ({ st with flow := f }, showState "finit ooo=0" f.tracker)
+    | none => (st, "bad-op")
+  | "fseg" :: n :: h :: _ => match n.toNat?, parseHex h with
+    | some k, some d =>
+      let (f, ev) := st.flow.processPacket k (some d)
+      ({ st with flow := f }, showFlow ev f)
+    | _, _ => (st, "bad-op")
+  | "fsegp" :: n :: h :: _ => match n.toNat?, parseHex h with
+    | some k, some d =>
+      -- a parsed TCP segment without payload bytes has no RawPDU layer
+      let (f, ev) := st.flow.processPacket k (if d.isEmpty then none else some d)
+      ({ st with flow := f }, showFlow ev f)
+    | _, _ => (st, "bad-op")
+  | "fbare" :: n :: _ => match n.toNat? with
+    | some k => let (f, ev) := st.flow.processPacket k none; ({ st with flow := f }, showFlow ev f)
+    | none => (st, "bad-op")
+  | "fadv" :: n :: _ => match n.toNat? with
+    | some k => let f := st.flow.advanceSequence k; ({ st with flow := f }, showState "fadv ooo=0" f.tracker)
+    | none => (st, "bad-op")
+  | "fignore" :: _ =>
+    let f := { st.flow with ignoreData := true }; ({ st with flow := f }, showState "fignore ooo=0" f.tracker)
+  -- legacy follower
+  | "linit" :: c :: s :: _ => match c.toNat?, s.toNat? with
+    | some c, some s =>
+      let st' := { st with lc := LStream.init c, ls := LStream.init s }
+      (st', showLegacy false st')
+    | _, _ => (st, "bad-op")
+  | op :: dir :: n :: rest =>
+    if op == "lseg" || op == "lsegp" || op == "lbare" then
+      let payload : Option Bytes :=
+        if op == "lbare" then none else
+        match rest with
+        | h :: _ => match parseHex h with
+          | some d => if op == "lsegp" && d.isEmpty then none else some d
+          | none => none
+        | [] => none
+      match n.toNat?, payload with
+      | some k, some d =>
+        if dir == "c" then
+          let (t', r) := genericProcess st.lc k d
+          let st' := { st with lc := t' }; (st', showLegacy r st')
+        else
+          let (t', r) := genericProcess st.ls k d
+          let st' := { st with ls := t' }; (st', showLegacy r st')
+      | some _, none => (st, showLegacy false st)
+      | none, _ => (st, "bad-op")
+    else (st, "bad-op")
+  | _ => (st, "bad-op")
 
 end Driver.C06
 
@@ -31,46 +109,150 @@ structure OState where
   s : Bytes := []
   isn : Nat := 0
   h : List Seg := []
+  /-- `frontier h s.length`, followed incrementally (`frontier_cons_advance` in TinsModel/Tcp/LemmasRefine.lean) -/
+  k : Nat := 0
   unspecified : Bool := true
 
 def kv (ws : List String) (key : String) : Option String :=
   ws.findSome? (fun w => if w.startsWith (key ++ "=") then some ((w.drop (key.length + 1)).toString) else none)
 
-def parseBuf (s : String) : Option Chunks :=
+/-- a buffered chunk as printed by a harness: its bytes, or (for long chunks) length and FNV-1a 64 -/
+inductive ChunkRepr
+  | data (d : Bytes)
+  | hashed (len : Nat) (h : Nat)
+
+def parseBuf (s : String) : Option (List (Nat × ChunkRepr)) :=
   if s == "" then some [] else
   (s.splitOn ",").mapM (fun item => match item.splitOn ":" with
-    | [k, h] => do let k ← k.toNat?; let d ← parseHex h; pure (k, d)
+    | [k, h] => do
+      let k ← k.toNat?
+      if h.startsWith "#" then
+        match ((h.drop 1).toString).splitOn "." with
+        | [l, f] => do let l ← l.toNat?; let f ← f.toNat?; pure (k, ChunkRepr.hashed l f)
+        | _ => none
+      else do let d ← parseHex h; pure (k, ChunkRepr.data d)
     | _ => none)
+
+/-- A hashed chunk is turned back into bytes for `specOKat`: the slice of the stream it must equal if length and
+    hash match that slice, otherwise bytes that make the check fail (out of bounds → the length alone fails it;
+    hash mismatch → every byte differs from the slice). -/
+def resolveChunk (s : Bytes) (k seq : Nat) (c : Nat × ChunkRepr) : Nat × Bytes :=
+  match c.2 with
+  | .data d => (c.1, d)
+  | .hashed len h =>
+    let a := k + sub32 c.1 seq
+    let d := (s.drop a).take len
+    if d.length == len && (fnv d).toNat == h then (c.1, d)
+    else if d.length == len then (c.1, d.map (· + 1))
+    else (c.1, List.replicate len 0)
 
 def parseInt (s : String) : Option Int :=
   if s.startsWith "-" then (s.drop 1).toString.toNat?.map (fun n => - (n : Int)) else s.toNat?.map (fun n => (n : Int))
+
+/-- what one operation means for the spec: a new stream, an arrival, no arrival, or "outside the spec" -/
+inductive OpKind
+  | start (isn : Nat) (s : Bytes)
+  | arrival (off : Int) (len : Nat) (checkOoo : Bool) (noPayloadLayer : Bool)
+  | nothing          -- packet without payload layer: nothing may change, no callback may fire
+  | other            -- other direction of the legacy stream: the specified direction must not change
+  | leave
+
+def opKind (ws : List String) : OpKind :=
+  let arrival (h off : String) (flow parsed : Bool) : OpKind :=
+    match parseHex h, parseInt ((off.drop 1).toString) with
+    | some d, some o => .arrival o d.length flow (parsed && d.isEmpty)
+    | _, _ => .leave
+  match ws with
+  | ["init", n, h] | ["finit", n, h] | ["linit", n, _, h] =>
+    match n.toNat?, parseHex h with
+    | some isn, some s => .start isn s
+    | _, _ => .leave
+  | ["seg", _, h, off] => arrival h off false false
+  | ["fseg", _, h, off] => arrival h off true false
+  | ["fsegp", _, h, off] => arrival h off true true
+  | ["lseg", "c", _, h, off] => arrival h off false false
+  | ["lsegp", "c", _, h, off] => arrival h off false true
+  | ["fbare", _] | ["lbare", "c", _] => .nothing
+  | "lseg" :: "s" :: _ | "lsegp" :: "s" :: _ | "lbare" :: "s" :: _ => .other
+  | _ => .leave
+
+/-- the observable state printed by a harness, in the tracker's vocabulary -/
+structure Seen where
+  r : Option Bool
+  ooo : Option Nat
+  seq : Nat
+  total : Option Nat
+  plen : Nat
+  ph : Nat
+  buf : List (Nat × ChunkRepr)
+
+def parseSeen (out : String) : Option Seen :=
+  let ow := words out
+  let r : Option Bool := if ow.contains "r=1" then some true else if ow.contains "r=0" then some false else none
+  match kv ow "c" with
+  | some c =>   -- legacy: c=<seq>/<plen>/<fnv>/<frags>
+    match c.splitOn "/" with
+    | [seq, plen, ph, fr] => do
+      let seq ← seq.toNat?; let plen ← plen.toNat?; let ph ← ph.toNat?; let buf ← parseBuf fr
+      pure { r := r, ooo := none, seq := seq, total := none, plen := plen, ph := ph, buf := buf }
+    | _ => none
+  | none => do
+    let seq ← (kv ow "seq").bind (·.toNat?)
+    let total ← (kv ow "total").bind (·.toNat?)
+    let plen ← (kv ow "plen").bind (·.toNat?)
+    let ph ← (kv ow "ph").bind (·.toNat?)
+    let buf ← (kv ow "buf").bind parseBuf
+    pure { r := r, ooo := (kv ow "ooo").bind (·.toNat?), seq := seq, total := some total, plen := plen, ph := ph, buf := buf }
 
 /-- spec mode: each input line is `<op> ||| <implementation output>` -/
 def specStep (st : OState) (line : String) : OState × String :=
   match line.splitOn " ||| " with
   | [op, out] =>
-    let ow := words out
-    let st' : OState := match words op with
-      | ["init", n, h] => match n.toNat?, parseHex h with
-        | some isn, some s => { s := s, isn := isn, h := [], unspecified := false }
-        | _, _ => { st with unspecified := true }
-      | ["seg", _, h, off] => match parseHex h, parseInt ((off.drop 1).toString) with
-        | some d, some o => { st with h := ⟨o, d.length⟩ :: st.h }
-        | _, _ => { st with unspecified := true }
-      | _ => { st with unspecified := true }
+    let kind := opKind (words op)
+    let kOld := st.k
+    let st' : OState := match kind with
+      | .start isn s => { s := s, isn := isn, h := [], k := 0, unspecified := false }
+      | .arrival o len _ _ =>
+        let h' := ⟨o, len⟩ :: st.h
+        { st with h := h', k := advanceFrom h' st.s.length (st.s.length + 1) st.k }
+      | .nothing | .other => st
+      | .leave => { st with unspecified := true }
     if st'.unspecified then (st', "unspecified") else
-    match (kv ow "seq").bind (·.toNat?), (kv ow "total").bind (·.toNat?), (kv ow "plen").bind (·.toNat?),
-          (kv ow "ph").bind (·.toNat?), (kv ow "buf").bind parseBuf with
-    | some seq, some total, some plen, some ph, some buf =>
-      let k := frontier st'.h st'.s.length
+    match parseSeen out with
+    | none => (st', "violates unparsable-output")
+    | some seen =>
+      let k := st'.k
       let pref := st'.s.take k
-      if plen != k || ph != (fnv pref).toNat then (st', s!"violates delivered-prefix k={k} plen={plen}")
-      else if specOK st'.s st'.isn st'.h ⟨seq, total, pref, buf⟩ then (st', "ok")
-      else (st', s!"violates buffered-state k={k}")
-    | _, _, _, _, _ => (st', "violates unparsable-output")
+      if seen.plen != k || seen.ph != (fnv pref).toNat then (st', s!"violates delivered-prefix k={k} plen={seen.plen}")
+      else
+        let buf : Chunks := seen.buf.map (resolveChunk st'.s k seen.seq)
+        let total := seen.total.getD (buf.map (fun c => c.2.length)).sum   -- the legacy stream has no counter
+        if !specOKat st'.s st'.isn k ⟨seen.seq, total, pref, buf⟩ then (st', s!"violates buffered-state k={k}")
+        else
+          -- callbacks: the data callback / `true` result exactly when the delivered prefix grew; the
+          -- out-of-order callback exactly when the segment lies entirely below the delivery point or starts above it
+          let wantR : Option Bool := match kind with
+            | .arrival _ _ _ _ => some (decide (kOld < k))
+            | .nothing => some false
+            | _ => none
+          let wantOoo : Option Nat := match kind with
+            | .arrival o len true noLayer =>
+              some (if !noLayer && (decide (o + (len : Int) < (kOld : Int)) || decide ((kOld : Int) < o)) then 1 else 0)
+            | .nothing => some 0
+            | _ => none
+          match wantR, seen.r with
+          | some w, some g =>
+            if w != g then (st', s!"violates data-callback grew={w} fired={g} k={k}")
+            else match wantOoo, seen.ooo with
+              | some wo, some go =>
+                if wo != go then (st', s!"violates out-of-order-callback want={wo} got={go} k={k}") else (st', "ok")
+              | some _, none => (st', "ok")
+              | none, _ => (st', "ok")
+          | some _, none => (st', "violates unparsable-output")
+          | none, _ => (st', "ok")
   | _ => (st, "bad-line")
 
-def initModel : Tracker := Tracker.init 0
+def initModel : MState := {}
 def initSpec : OState := {}
 
 end Driver.C06
